@@ -154,7 +154,7 @@ def _form(coll, form):
 
 def _op_of(q):
     tags = sp.flags(q).get("tags", [])
-    if q.endswith("_arrow"):
+    if q.endswith("_arrow") or "pqf" in tags:
         return "read_parquet[arrow]"
     if "set_index" in tags:
         return "set_index"
@@ -164,7 +164,7 @@ def _op_of(q):
 
 
 def _groups(q):
-    return {t for t in sp.flags(q).get("tags", []) if t in ("sort", "parquet", "memusage", "flaky", "disk")}
+    return {t for t in sp.flags(q).get("tags", []) if t in ("sort", "parquet", "pqf", "presorted", "memusage", "flaky", "disk")}
 
 
 def originate(items, pq):
